@@ -41,6 +41,11 @@ UNKNOWN_REGEX = re.compile(
 # Recognized register names
 REGISTERS = ["A", "B", "D", "X", "Y", "U", "S", "CC", "DP", "PC"]
 
+# Pattern to recognize the register part of an indexed operand
+INDEX_REGISTER_REGEX = re.compile(
+    r"^([XYUS]\+{0,2}|-{1,2}[XYUS]|PCR)$"
+)
+
 # C L A S S E S ###############################################################
 
 
@@ -527,6 +532,9 @@ class ExtendedIndexedOperand(Operand):
         additional = NoneValue()
         additional_needs_resolution = False
 
+        if type(self.right) != str or not INDEX_REGISTER_REGEX.match(self.right):
+            raise OperandTypeError("[{}] invalid index register".format(self.operand_string))
+
         if "X" in self.right:
             raw_post_byte |= 0x00
         if "Y" in self.right:
@@ -551,6 +559,8 @@ class ExtendedIndexedOperand(Operand):
                 raw_post_byte |= 0x14
 
         elif self.left == "A" or self.left == "B" or self.left == "D":
+            if len(self.right) != 1:
+                raise OperandTypeError("[{}] invalid indexed expression".format(self.operand_string))
             if self.left == "A":
                 raw_post_byte |= 0x16
             if self.left == "B":
@@ -656,6 +666,9 @@ class IndexedOperand(Operand):
         additional = NoneValue()
         additional_needs_resolution = False
 
+        if not INDEX_REGISTER_REGEX.match(self.right):
+            raise OperandTypeError("[{}] invalid index register".format(self.operand_string))
+
         # Determine register (if any)
         if "X" in self.right:
             raw_post_byte |= 0x00
@@ -682,6 +695,8 @@ class IndexedOperand(Operand):
                 raw_post_byte |= 0x04
 
         elif self.left == "A" or self.left == "B" or self.left == "D":
+            if len(self.right) != 1:
+                raise OperandTypeError("[{}] invalid indexed expression".format(self.operand_string))
             raw_post_byte |= 0x80
             if self.left == "A":
                 raw_post_byte |= 0x06
